@@ -1,4 +1,4 @@
-import DoraModel.Stw.Facts
+import DoraModel.Stw.Progress
 /-!
 # C04 — No managed thread runs while the world is stopped
 
@@ -172,117 +172,105 @@ theorem quiescent (hr : Reach N s) (hl : s.lockL = none) :
     simp [PhC] at this
     omega
 
-/-
-`deadlock_free` / `all_resume` — FULL STATEMENT (not proved):
-  for every reachable state in which some started thread has not left, some event other than a spurious wake-up is
-  accepted; every thread waiting in `cv_wakeup` is eventually signalled after `disarm`.
-PROVED below (`…_partial`): (1) the holder of the barrier mutex can always take a step (so `B` is never held for
-ever); (2) `disarm`'s `notify_all` empties the wait set of `cv_wakeup`, the barrier is unarmed and every thread's
-request bit is cleared at that moment, so every woken thread leaves its `while data.is_armed()` loop unless a NEW
-round has been armed in between (then it is ParkedSafepointRequested for that round).
-MISSING: the two no-lost-wake-up invariants — "a thread in `cv_notify.wait` ⇒ `stopped < running` or a notifier
-holds `B` before its `notify_one`" and "a thread in `cv_wakeup.wait` ⇒ armed, or the disarming thread is between
-`disarm()` and `notify_all()`" — and the case analysis "some thread outside a wait set is enabled" built on them.
-That part is covered only by the bounded exploration of the real code (the scheduler reports every deadlock; none found).
--/
+/-- the thread is inside `remove_current_thread`, before it has got the list lock -/
+def exiting : PC → Bool
+  | .park0 .exit | .parkS .exit | .parkB0 .exit | .parkB1 .exit | .parkB2 .exit | .rmL0 => true
+  | _ => false
 
-/-- (1) whoever holds `Barrier::data` can take a step: the mutex is never held by a blocked thread. -/
-theorem deadlock_free_partial (hr : Reach N s) {b : Nat} (hb : s.lockB = some b) :
-    ∃ (a : Act) (s' : State), a ≠ .spur ∧ accept s ⟨b, a⟩ = .ok s' := by
+/-- "thread exit never leaves a thread out" — `remove_current_thread` racing with `stop_threads`: a thread that is
+exiting but has not yet taken the list lock is still an element of the list at its index (so the initiator's loops
+reach it); nobody but the holder of the list lock is past `threads.lock()` of `add_thread` /
+`remove_current_thread`, i.e. the list does not change under the initiator; and while another thread `i` runs an
+operation the exiting thread has parked itself through `park_slow` (state ParkedSafepointRequested, its report
+counted) and is waiting for the barrier mutex or the list lock — it cannot remove itself before `i` drops the lock. -/
+theorem exit_during_stop_the_world (hr : Reach N s) {u : Nat} {y : Thr} (hu : s.thr[u]? = some y)
+    (hex : exiting y.pc = true) :
+    s.list[y.idx]? = some u ∧ holdsL y.pc = false ∧
+    (∀ (i k : Nat) (x : Thr), s.thr[i]? = some x → opFrom x.pc = some k → k ≤ y.idx →
+      y.st = 3 ∧ s.lockL = some i ∧ i ≠ u) := by
   have h := hr.inv
-  have hlt : ∃ x, s.thr[b]? = some x ∧ holdsB x.pc = true := by
-    cases hx : s.thr[b]? with
-    | some x => exact ⟨x, rfl, (h.loc b x hx).2.1.mpr hb⟩
-    | none =>
-      exfalso
-      exact hr.lockB_valid b hb hx
-  obtain ⟨x, hx, hh⟩ := hlt
-  obtain ⟨pc, st, idx⟩ := x
-  have en : ∀ (a : Act), a ≠ .spur → (stepAt s b ⟨pc, st, idx⟩ pc a).isOk = true →
-      ∃ (a : Act) (s' : State), a ≠ .spur ∧ accept s ⟨b, a⟩ = .ok s' := by
-    intro a ha hok
-    cases hs : stepAt s b ⟨pc, st, idx⟩ pc a with
-    | ok s' => exact ⟨a, s', ha, by simp [accept, hx, hs]⟩
-    | error m => rw [hs] at hok; simp [Except.isOk, Except.toBool] at hok
-  cases pc <;> simp [holdsB] at hh
-  case spB1 =>
-    by_cases hz : s.thr.countP isWaitN = 0
-    · exact en (.n1N none) (by simp) (by simp [stepAt, hz, Except.isOk, Except.toBool])
-    · have hpos : 0 < s.thr.countP isWaitN := by omega
-      rw [List.countP_pos_iff] at hpos
-      obtain ⟨y, hy, hyw⟩ := hpos
-      obtain ⟨u, hu⟩ := List.getElem?_of_mem hy
-      obtain ⟨pcy, sty, idxy⟩ := y
-      cases pcy <;> simp [isWaitN] at hyw
-      exact en (.n1N (some u)) (by simp) (by simp [stepAt, State.pcOf, hu, Except.isOk, Except.toBool])
-  case spB2 =>
-    cases ha : s.armed
-    · exact en .unlockB (by simp) (by simp [stepAt, ha, Except.isOk, Except.toBool])
-    · exact en .waitW (by simp) (by simp [stepAt, ha, Except.isOk, Except.toBool])
-  case parkB1 r =>
-    by_cases hz : s.thr.countP isWaitN = 0
-    · exact en (.n1N none) (by simp) (by simp [stepAt, hz, Except.isOk, Except.toBool])
-    · have hpos : 0 < s.thr.countP isWaitN := by omega
-      rw [List.countP_pos_iff] at hpos
-      obtain ⟨y, hy, hyw⟩ := hpos
-      obtain ⟨u, hu⟩ := List.getElem?_of_mem hy
-      obtain ⟨pcy, sty, idxy⟩ := y
-      cases pcy <;> simp [isWaitN] at hyw
-      exact en (.n1N (some u)) (by simp) (by simp [stepAt, State.pcOf, hu, Except.isOk, Except.toBool])
-  case parkB2 r => exact en .unlockB (by simp) (by simp [stepAt, Except.isOk, Except.toBool])
-  case unpB1 r =>
-    cases ha : s.armed
-    · exact en .unlockB (by simp) (by simp [stepAt, ha, Except.isOk, Except.toBool])
-    · exact en .waitW (by simp) (by simp [stepAt, ha, Except.isOk, Except.toBool])
-  case armB => exact en .unlockB (by simp) (by simp [stepAt, Except.isOk, Except.toBool])
-  case wuB1 r =>
-    by_cases hlt' : s.stopped < r
-    · exact en .waitN (by simp) (by simp [stepAt, hlt', Except.isOk, Except.toBool])
-    · exact en .unlockB (by simp) (by simp [stepAt, hlt', Except.isOk, Except.toBool])
-  case disB1 => exact en (.naW (s.thr.countP isWaitW)) (by simp) (by simp [stepAt, Except.isOk, Except.toBool])
-  case disB2 => exact en .unlockB (by simp) (by simp [stepAt, Except.isOk, Except.toBool])
+  have hin : inList y.pc = true := by
+    obtain ⟨pc, st, idx⟩ := y
+    cases pc <;> simp [exiting] at hex <;> rfl
+  have hnl : holdsL y.pc = false := by
+    obtain ⟨pc, st, idx⟩ := y
+    cases pc <;> simp [exiting] at hex <;> rfl
+  have hl := (nobody_left_out hr).1 u y hu hin
+  refine ⟨hl, hnl, ?_⟩
+  intro i k x hi hop hk
+  have hxL : holdsL x.pc = true := by
+    obtain ⟨pc, st, idx⟩ := x
+    cases pc <;> simp [opFrom] at hop <;> rfl
+  have hiu : i ≠ u := by
+    intro e; subst e; rw [hu] at hi; cases hi; rw [hnl] at hxL; cases hxL
+  obtain ⟨y', hy', hst, -⟩ := world_stopped hr hi hop y.idx u hk hl (Ne.symm hiu)
+  rw [hu] at hy'; cases hy'
+  refine ⟨?_, (h.loc i x hi).1.mp hxL, hiu⟩
+  have key : ∀ (pc : PC) (st : Nat), exiting pc = true → StOk pc st → st ≤ 3 := by
+    intro pc st h1 h2
+    cases pc <;> simp [exiting] at h1 <;> simp [StOk] at h2 <;> omega
+  have := key y.pc y.st hex (h.loc u y hu).2.2.1
+  omega
 
-/-- (2) `disarm`: after its `notify_all` nobody is left in the wait set of `cv_wakeup`, the barrier is unarmed, and
-no state byte carries a request bit. -/
-theorem all_resume_partial (hr : Reach N s) {i k : Nat} {s' : State} (ha : accept s ⟨i, .naW k⟩ = .ok s') :
-    s'.thr.countP isWaitW = 0 ∧ s'.armed = false ∧ ∀ (u : Nat) (y : Thr), s'.thr[u]? = some y → y.st = 0 ∨ y.st = 1 := by
-  have hr' : Reach N s' := Reach.step hr ha
-  have h' := hr'.inv
-  obtain ⟨pc, st, idx, ht, hs⟩ := accept_step ha
-  have hpc : pc = .disB1 := by
-    unfold accept at ha; simp only at ha; rw [ht] at ha; simp only at ha
-    cases pc <;> simp [stepAt] at ha
-    rfl
-  subst hpc
-  have hs' : s' = { s with thr := s.thr.map wakeW }.setPc i .disB2 := by
-    unfold accept at ha; simp only at ha; rw [ht] at ha; simp only [stepAt] at ha
-    split at ha <;> simp at ha
-    exact ha.symm
-  have hid : s'.phase = .idle := by
-    have := (hr.inv.loc i _ ht).2.2.2.2.2.2
-    simp [PhOk] at this
-    rw [hs']; exact this.1
-  refine ⟨?_, ?_, ?_⟩
-  · rw [hs']
-    simp only [State.setPc]
-    rw [List.countP_eq_zero]
-    intro y hy
-    obtain ⟨u, hu⟩ := List.getElem?_of_mem hy
-    rw [List.getElem?_modify, List.getElem?_map] at hu
-    cases hx : s.thr[u]? with
-    | none => rw [hx] at hu; simp at hu
-    | some x =>
-      rw [hx] at hu; simp at hu; subst hu
-      obtain ⟨pcx, stx, idxx⟩ := x
-      by_cases hiu : i = u <;> cases pcx <;> simp [hiu, wakeW, isWaitW]
-  · cases ha' : s'.armed
-    · rfl
-    · exact absurd hid (h'.armedIff.mp ha')
-  · intro u y hy
-    have := (h'.loc u y hy).2.2.2.2.1
-    rw [hid, reqBit_iff] at this
-    simp [PhC] at this
-    omega
+/-- "never lose a wake-up": (1) whenever the initiator sleeps in `wait_until_threads_stopped(r)` (`cv_notify.wait`),
+`stopped < r` — some counted thread has not reported yet — or a reporting thread holds the barrier mutex between its
+`stopped += 1` and its `notify_one()`; (2) whenever a thread sleeps in `wait_in_safepoint` / `wait_in_unpark`
+(`cv_wakeup.wait`), the barrier is armed, or the disarming thread holds the barrier mutex between `disarm()` and
+`notify_all()`.  (The model's `notify_one` must wake a waiter if there is one, `notify_all` wakes all: parking_lot's
+contract.) -/
+theorem no_lost_wakeup (hr : Reach N s) :
+    (∀ (i r : Nat), s.pcOf i = some (.wuWait r) →
+      s.stopped < r ∨ ∃ (b : Nat) (q : PC), s.lockB = some b ∧ s.pcOf b = some q ∧ isNotifier q = true) ∧
+    (∀ (i : Nat) (q : PC), s.pcOf i = some q → isWaitWpc q = true →
+      s.armed = true ∨ ∃ (b : Nat), s.lockB = some b ∧ s.pcOf b = some .disB1) :=
+  ⟨hr.inv2.waitN, hr.inv2.waitW⟩
+
+/-- "simultaneous requests from several threads, threads entering and leaving native code, thread start and thread
+exit never deadlock": in every reachable state in which some started thread has not left (`live`), some thread can
+take a step that is not a spurious wake-up.  In particular the states "the initiator waits for a report that never
+comes", "everybody left is asleep in the barrier", "a thread waits for a lock whose owner sleeps" are unreachable.
+`hslots` is about the model only: it has a fixed number `N` of thread slots, and a thread that is about to create
+a thread needs a free one. -/
+theorem deadlock_free (hr : Reach N s)
+    (hslots : ∀ (t : Nat) (x : Thr), s.thr[t]? = some x → x.pc = .addA →
+      ∃ (u : Nat) (y : Thr), s.thr[u]? = some y ∧ y.pc = .unborn)
+    (hlive : ∃ (w : Nat) (x : Thr), s.thr[w]? = some x ∧ live x.pc = true) :
+    ∃ (e : Event) (s' : State), e.act ≠ .spur ∧ accept s e = .ok s' :=
+  progress hr hslots hlive
+
+/-- "afterwards every thread resumes": (1) `disarm`'s `notify_all` leaves nobody in the wait set of `cv_wakeup`, the
+barrier unarmed and every request bit cleared; (2) in ANY reachable state with the barrier unarmed, a thread still
+in that wait set is about to be woken (the disarming thread holds the mutex just before `notify_all`) — so once the
+barrier mutex is free again nobody sleeps on an unarmed barrier; (3) a woken thread re-acquires the free mutex, and
+at the loop head of `wait_in_safepoint` / `wait_in_unpark` it leaves the loop when the barrier is unarmed.
+(Whether an individual thread gets to run is up to the scheduler; `deadlock_free` says somebody always can.) -/
+theorem all_resume (hr : Reach N s) :
+    (∀ (i k : Nat) (s' : State), accept s ⟨i, .naW k⟩ = .ok s' →
+      s'.thr.countP isWaitW = 0 ∧ s'.armed = false ∧
+      ∀ (u : Nat) (y : Thr), s'.thr[u]? = some y → y.st = 0 ∨ y.st = 1) ∧
+    (s.armed = false → ∀ (i : Nat) (q : PC), s.pcOf i = some q → isWaitWpc q = true →
+      ∃ (b : Nat), s.lockB = some b ∧ s.pcOf b = some .disB1) ∧
+    (s.lockB = none → ∀ (i : Nat) (x : Thr), s.thr[i]? = some x →
+      ((x.pc = .spWoken ∨ ∃ r, x.pc = .unpWoken r) → ∃ s', accept s ⟨i, .relockB⟩ = .ok s')) ∧
+    (s.armed = false → ∀ (i : Nat) (x : Thr), s.thr[i]? = some x →
+      ((x.pc = .spB2 ∨ ∃ r, x.pc = .unpB1 r) → ∃ s', accept s ⟨i, .unlockB⟩ = .ok s')) := by
+  refine ⟨fun i k s' ha => all_resume_notify hr ha, ?_, ?_, ?_⟩
+  · intro hna i q hq hw
+    rcases hr.inv2.waitW i q hq hw with h1 | h1
+    · rw [hna] at h1; cases h1
+    · exact h1
+  · intro hB i x hx hpc
+    obtain ⟨pc, st, idx⟩ := x
+    rcases hpc with h1 | ⟨r, h1⟩ <;> simp at h1 <;> subst h1 <;>
+      (cases hacc : accept s ⟨i, .relockB⟩ with
+       | ok s' => exact ⟨s', rfl⟩
+       | error m => simp [accept, hx, stepAt, hB] at hacc)
+  · intro hna i x hx hpc
+    obtain ⟨pc, st, idx⟩ := x
+    rcases hpc with h1 | ⟨r, h1⟩ <;> simp at h1 <;> subst h1 <;>
+      (cases hacc : accept s ⟨i, .unlockB⟩ with
+       | ok s' => exact ⟨s', rfl⟩
+       | error m => simp [accept, hx, stepAt, hna] at hacc)
 
 /-! ## non-vacuity: a concrete 3-thread run through a full stop-the-world
 Thread 0 spawns threads 1 and 2; thread 2 enters a native call (Parked); thread 0 requests a stop-the-world:
@@ -337,9 +325,62 @@ example : (stateAfter 38).map (fun s => (s.thr[0]?.map (·.pc), s.stopped, s.thr
 example : (stateAfter 56).map (fun s => (s.thr[0]?.map (fun x => opFrom x.pc), s.thr.map (·.st)))
     = some (some (some 1), [1, 4, 3]) := by decide
 
-/-- hypothesis of `all_resume_partial` / `deadlock_free_partial`: after 59 events thread 0 holds `B` and is about to
+/-- hypothesis of `all_resume` (1): after 59 events thread 0 holds `B` and is about to
 `notify_all`; two threads wait on `cv_wakeup` -/
 example : (stateAfter 59).map (fun s => (s.lockB, s.thr.countP isWaitW, (accept s ⟨0, .naW 2⟩).isOk))
     = some (some 0, 2, true) := by decide
+
+/-- hypotheses of `deadlock_free` on a reachable state (after 38 events: the initiator sleeps in `cv_notify.wait`,
+thread 2 is in a native call, thread 1 runs): live threads exist and nobody is about to create a thread -/
+example : ∃ s, Reach 3 s ∧
+    (∀ (t : Nat) (x : Thr), s.thr[t]? = some x → x.pc = .addA → ∃ (u : Nat) (y : Thr), s.thr[u]? = some y ∧ y.pc = .unborn) ∧
+    (∃ (w : Nat) (x : Thr), s.thr[w]? = some x ∧ live x.pc = true) := by
+  cases hs : stateAfter 38 with
+  | none => exact absurd hs (by decide)
+  | some s =>
+    have e : (stateAfter 38).map (fun s => (s.thr.all (fun x => x.pc != .addA), s.thr[1]?.map (fun x => live x.pc)))
+        = some (true, some true) := by decide
+    rw [hs] at e
+    simp at e
+    obtain ⟨e1, e2⟩ := e
+    refine ⟨s, Reach.init.run _ _ hs, ?_, ?_⟩
+    · intro t x hx hpc
+      have := e1 x (List.mem_of_getElem? hx)
+      rw [hpc] at this; simp at this
+    · cases hx : s.thr[1]? with
+      | none => rw [hx] at e2; simp at e2
+      | some x => rw [hx] at e2; simp at e2; exact ⟨1, x, hx, e2⟩
+
+/-- hypotheses of `no_lost_wakeup` (1) and `all_resume` (2): after 38 events the initiator is in `cv_notify.wait`;
+after 58 events (barrier disarmed, `notify_all` not yet done) two threads are still in `cv_wakeup.wait` -/
+example : (stateAfter 38).map (fun s => s.pcOf 0) = some (some (.wuWait 1)) ∧
+    (stateAfter 59).map (fun s => (s.armed, s.pcOf 1, s.pcOf 2, s.lockB, s.pcOf 0))
+      = some (false, some .spWait, some (.unpWait (.scope .nat)), some 0, some .disB1) := by decide
+
+/-! ### thread exit racing with a stop-the-world (2 threads)
+Thread 0 spawns thread 1 and requests a stop-the-world; after `fetch_or` has made thread 1 SafepointRequested,
+thread 1 exits: `park` fails, `park_slow` makes it ParkedSafepointRequested and reports; it then waits for the list
+lock while thread 0 runs the operation, resumes, disarms and unlocks; only then thread 1 removes itself. -/
+
+def exitTrace : List Event := [
+  ⟨0, .beg 3⟩, ⟨0, .fetchX⟩, ⟨0, .loadS 1 1⟩, ⟨0, .loadS 0 0⟩, ⟨0, .casS 0 0 (some 1)⟩,
+  ⟨0, .lockL⟩, ⟨0, .storeI 1 1⟩, ⟨0, .unlockL⟩, ⟨0, .casS 0 1 (some 0)⟩, ⟨0, .loadS 0 0⟩,
+  ⟨0, .spawn 1⟩, ⟨1, .casS 1 1 (some 0)⟩, ⟨0, .beg 2⟩, ⟨0, .loadS 0 0⟩, ⟨0, .casS 0 0 (some 1)⟩,
+  ⟨0, .lockL⟩, ⟨0, .lockB⟩, ⟨0, .unlockB⟩, ⟨0, .forS 0 1 3⟩, ⟨0, .forS 1 0 2⟩,
+  ⟨1, .beg 4⟩, ⟨1, .casS 1 2 none⟩, ⟨1, .casS 1 2 (some 3)⟩, ⟨0, .lockB⟩, ⟨0, .waitN⟩,
+  ⟨1, .lockB⟩, ⟨1, .n1N (some 0)⟩, ⟨1, .unlockB⟩, ⟨0, .relockB⟩, ⟨0, .unlockB⟩,
+  ⟨0, .swapRT 0 1⟩, ⟨0, .opTouch⟩, ⟨0, .swapRT 1 0⟩, ⟨0, .swapS 0 3 1⟩, ⟨0, .swapS 1 3 1⟩,
+  ⟨0, .lockB⟩, ⟨0, .naW 0⟩, ⟨0, .unlockB⟩, ⟨0, .unlockL⟩, ⟨1, .lockL⟩,
+  ⟨1, .loadI 1 1⟩, ⟨1, .naJ 0⟩, ⟨1, .unlockL⟩, ⟨0, .casS 0 1 (some 0)⟩, ⟨0, .loadS 0 0⟩ ]
+
+/-- the run is accepted; thread 1 has left, the list is `[0]`, one operation was completed -/
+example : (runTrace (init 2) exitTrace).map (fun s => (s.thr.map (·.pc), s.thr.map (·.st), s.list, s.ops))
+    = some ([.mut, .dead], [0, 1], [0], 1) := by decide
+
+/-- hypotheses of `exit_during_stop_the_world` on a reachable state: after 32 events thread 0 is inside the operation
+and thread 1 is exiting (waiting for the list lock, state 3) -/
+example : (runTrace (init 2) (exitTrace.take 32)).map
+    (fun s => (s.thr[0]?.map (fun x => opFrom x.pc), s.thr[1]?.map (fun x => (exiting x.pc, x.st, x.idx)), s.list))
+    = some (some (some 0), some (true, 3, 1), [0, 1]) := by decide
 
 end Dora.Stw.C04
